@@ -125,6 +125,12 @@ func (vm *VirtualMachine) start(ctx context.Context) error {
 	if vm.running {
 		return fmt.Errorf("vm is already running")
 	}
+	// Nothing runs under a context that is over already. Without this test
+	// the outcome depends on whether the watcher goroutine below gets to set
+	// the halt flag before a short program has finished.
+	if err := ctx.Err(); err != nil {
+		return err
+	}
 	vm.running = true
 	vm.startCount++
 	// Halt execution when the context is cancelled. The watcher only lives as
@@ -261,7 +267,9 @@ func (vm *VirtualMachine) resetForNewCode() {
 	vm.sp = -1
 	vm.ip = 0
 	vm.fp = 0
-	vm.halt = 0
+	// The halt flag is not touched here: start() has cleared it and armed the
+	// watcher for this run already, and a plain write could wipe out the
+	// watcher's request to halt (the context may be cancelled by now).
 	vm.activeFrame = nil
 	vm.activeCode = nil
 	vm.loadedCode = map[*compiler.Code]*code{}
